@@ -5050,16 +5050,19 @@ class Entity(object, metaclass=EntityMeta):
             objects_to_save = cache.objects_to_save
             save_pos = obj._save_pos_
 
+            def undo_append():
+                # registered when the object is appended to objects_to_save (after the nested calls have appended
+                # theirs), so that the undo functions pop the list in the reverse order of the appends
+                assert objects_to_save
+                obj2 = objects_to_save.pop()
+                assert obj2 is obj
+                if save_pos is not None:
+                    assert objects_to_save[save_pos] is None
+                    objects_to_save[save_pos] = obj
+                obj._save_pos_ = save_pos
+
             def undo_func():
-                if obj._status_ == 'marked_to_delete':
-                    assert objects_to_save
-                    obj2 = objects_to_save.pop()
-                    assert obj2 is obj
-                    if save_pos is not None:
-                        assert objects_to_save[save_pos] is None
-                        objects_to_save[save_pos] = obj
-                    obj._save_pos_ = save_pos
-                elif status == 'created' and objects_to_save[save_pos] is None:
+                if status == 'created' and objects_to_save[save_pos] is None:
                     # the object was created in this session and then cancelled:
                     # put it back into the list of objects to save
                     objects_to_save[save_pos] = obj
@@ -5139,6 +5142,7 @@ class Entity(object, metaclass=EntityMeta):
                     objects_to_save.append(obj)
                     obj._status_ = 'marked_to_delete'
                     cache.modified = True
+                    undo_funcs.append(undo_append)
             except:
                 if not is_recursive_call:
                     for undo_func in reversed(undo_funcs): undo_func()
